@@ -3,14 +3,14 @@
 set -e
 . /verif/scripts/env.sh
 profile=${1:-full}; race=${2:-}
-cd /verif/mc
+cd ${VERIF_MC:-/verif/mc}
 mkdir -p /verif/bin
 if [ ! -x /verif/bin/kvinstr ] || [ -n "$(find cmd/kvinstr -newer /verif/bin/kvinstr -name '*.go')" ]; then
   $GO build -o /verif/bin/kvinstr ./cmd/kvinstr >&2 || { echo "HARNESS-ERROR: kvinstr build failed" >&2; exit 2; }
 fi
 work=$SCRATCH/build-$profile-$$
 rm -rf "$work"; mkdir -p "$work"
-/verif/bin/kvinstr -src "$KEVO_SRC" -out "$work" -overlay "$work/overlay.json" -profile "$profile" >&2 || { rm -rf "$work"; exit 2; }
+/verif/bin/kvinstr -src "$KEVO_SRC" -out "$work" -overlay "$work/overlay.json" -profile "$profile" -rt "${VERIF_MC:-/verif/mc}/rt" -export "${VERIF_MC:-/verif/mc}/export" >&2 || { rm -rf "$work"; exit 2; }
 bindir=${VERIF_BIN:-/verif/bin}; mkdir -p "$bindir"
 bin=$bindir/kvcheck-$profile${race:+-race}
 flags=""
